@@ -604,27 +604,13 @@ func c15RunCase(c *vx.Ctx, w *vx.W, cs c15Case) {
 
 func TestVerif_C15(t *testing.T) {
 	vx.Run(t, "C15", func(c *vx.Ctx) {
-		depth := vx.Pick(c, 4, 6)
-		c.Rule(fmt.Sprintf("every statically legal sequence of 1..%d events (shortest first) over the menu {H (request, END_STREAM), Ho (request with open body), Hb:k (malformed request), and per stream slot i<=%d: R_i client RST_STREAM, W_i handler Write+Flush, F_i handler returns, P_i handler panics, D_i DATA+END_STREAM, X_i second HEADERS on the stream id (trailers, or an id re-use), PING (<=2), SETTINGS (<=2)}, for MAX_CONCURRENT_STREAMS 1 and 2 (default RFC 9218 scheduler; the other three schedulers one level shallower); each case runs on a fresh real server in its own synctest bubble, quiescence after every event; a case is non-trivial when all its events were applicable at run time (handler commands need a running handler)", depth, c15MaxSlots))
+		depth := vx.Pick(c, 3, 5)
+		c.Rule(fmt.Sprintf("every statically legal sequence of 1..%d events (shortest first) over the menu {H (request, END_STREAM), Ho (request with open body), Hb:k (malformed request), and per stream slot i<=%d: R_i client RST_STREAM, W_i handler Write+Flush, F_i handler returns, P_i handler panics, D_i DATA+END_STREAM, X_i second HEADERS on the stream id (trailers, or an id re-use), PING (<=2), SETTINGS (<=2)}, for MAX_CONCURRENT_STREAMS 1 and 2 (default RFC 9218 scheduler; the other three schedulers one level shallower), plus the same menu (incl. BLK/UNB: the client stops/resumes reading) explored %d levels deep from six seeded prefixes, plus every malformed-request kind in every context of <=%d events before and <=1 after; each case runs on a fresh real server in its own synctest bubble, quiescence after every event; a case is non-trivial when all its events were applicable at run time (handler commands need a running handler)", depth, c15MaxSlots, vx.Pick(c, 3, 4), vx.Pick(c, 1, 2)))
 		c.Assume("connection-specific header fields (connection, te!=trailers, transfer-encoding, keep-alive, proxy-connection, upgrade) are answered with an HTTP 4xx response instead of RST_STREAM; RFC 9113 §8.1.1 allows a response before closing the stream, so that is accepted as rejection (the handler must still never run)")
 		c.Assume("PING / SETTINGS acknowledgement is required at quiescence only while the server has neither closed the connection nor sent GOAWAY with an error code")
 		c.Assume("after the server has sent GOAWAY with an error code it discards every incoming frame (and closes the connection within a second); client RST_STREAMs sent after that point are not expected to take effect")
 		c.Assume("clauses that count the client's open streams (refusal beyond the limit, rejection at quiescence) are switched off after the client re-uses a stream id; the no-frames-after-close, handler-bound, PING and SETTINGS clauses stay on")
 		core := []string{"upper", "conn:te"}
-		for _, cfg := range []string{"m1", "m2"} {
-			cfg := cfg
-			vx.Enumerate(c, "core-"+cfg, vx.Opts{Serial: true, Crumb: true}, func(yield0 func(c15Case) bool) {
-				yield := c15Yield(c, yield0)
-				c15Gen(cfg, depth, core, false, nil, yield)
-			}, func(w *vx.W, cs c15Case) { c15RunCase(c, w, cs) })
-		}
-		for _, cfg := range []string{"m1-rr", "m2-7540", "m2-rand", "m2-rr"} {
-			cfg := cfg
-			vx.Enumerate(c, "sched-"+cfg, vx.Opts{Serial: true, Crumb: true}, func(yield0 func(c15Case) bool) {
-				yield := c15Yield(c, yield0)
-				c15Gen(cfg, depth-1, core, false, nil, yield)
-			}, func(w *vx.W, cs c15Case) { c15RunCase(c, w, cs) })
-		}
 		// seeds: start states that depth-bounded search from the empty connection reaches too late
 		sd := vx.Pick(c, 3, 4)
 		type seed struct {
@@ -650,6 +636,20 @@ func TestVerif_C15(t *testing.T) {
 			}, func(w *vx.W, cs c15Case) { c15RunCase(c, w, cs) })
 		}
 		c.Assume("while the harness does not read (events BLK…UNB) frames the server had already handed to its writer may surface later: the after-client-RST clause is not applied to resets sent in that window, and the at-quiescence clauses are evaluated after the harness has drained the connection again")
+		for _, cfg := range []string{"m1", "m2"} {
+			cfg := cfg
+			vx.Enumerate(c, "core-"+cfg, vx.Opts{Serial: true, Crumb: true}, func(yield0 func(c15Case) bool) {
+				yield := c15Yield(c, yield0)
+				c15Gen(cfg, depth, core, false, nil, yield)
+			}, func(w *vx.W, cs c15Case) { c15RunCase(c, w, cs) })
+		}
+		for _, cfg := range []string{"m1-rr", "m2-7540", "m2-rand", "m2-rr"} {
+			cfg := cfg
+			vx.Enumerate(c, "sched-"+cfg, vx.Opts{Serial: true, Crumb: true}, func(yield0 func(c15Case) bool) {
+				yield := c15Yield(c, yield0)
+				c15Gen(cfg, depth-1, core, false, nil, yield)
+			}, func(w *vx.W, cs c15Case) { c15RunCase(c, w, cs) })
+		}
 		// every malformed kind in every short context
 		var kinds []string
 		for k := range c15Malformed {
@@ -681,19 +681,6 @@ func TestVerif_C15(t *testing.T) {
 			}
 		}, func(w *vx.W, cs c15Case) { c15RunCase(c, w, cs) })
 	})
-}
-
-// c15Yield stops a generator once the internal deadline has passed (the check
-// is made here because every shard sees every generated case).
-func c15Yield[T any](c *vx.Ctx, yield func(T) bool) func(T) bool {
-	n := 0
-	return func(x T) bool {
-		n++
-		if n&127 == 0 && c.Expired() {
-			return false
-		}
-		return yield(x)
-	}
 }
 
 func c15CountH(evs []string) int {
